@@ -423,3 +423,16 @@ package j5convert
 //@   ensures oneof.accept: typeis(node.Schema, *schema_j5pb.Field_Oneof) && oneofSch(node) != nil && resolves(ww, node.Ref) && typeOf(ww, node.Ref).MessageRef != nil ==> result1 == nil
 //@   ensures object.accept: typeis(node.Schema, *schema_j5pb.Field_Object) && objectSch(node) != nil && resolves(ww, node.Ref) && typeOf(ww, node.Ref).MessageRef != nil ==> result1 == nil
 //@   ensures enum.accept: typeis(node.Schema, *schema_j5pb.Field_Enum) && enumSch(node) != nil && enumSch(node).Rules == nil && resolves(ww, node.Ref) && typeOf(ww, node.Ref).EnumRef != nil ==> result1 == nil
+
+// ---- integer bounds that do not fit the format are rejected, never wrapped (C12) ------------------------------
+//@ spec func fitsFormat(f schema_j5pb.IntegerField_Format, b int) bool =
+//@   | f == schema_j5pb.IntegerField_FORMAT_INT32 ? (0 - 2147483648 <= b && b <= 2147483647) :
+//@   | f == schema_j5pb.IntegerField_FORMAT_UINT32 ? (0 <= b && b <= 4294967295) :
+//@   | f == schema_j5pb.IntegerField_FORMAT_UINT64 ? 0 <= b : true
+//@ func buildField
+//@   ensures int.range.max: typeis(node.Schema, *schema_j5pb.Field_Integer) && intField(node) != nil && intField(node).Rules != nil && intField(node).Rules.Maximum != nil
+//@   |   && !fitsFormat(intField(node).Format, *intField(node).Rules.Maximum) ==> result1 != nil
+//@   ensures int.range.min: typeis(node.Schema, *schema_j5pb.Field_Integer) && intField(node) != nil && intField(node).Rules != nil && intField(node).Rules.Minimum != nil
+//@   |   && !fitsFormat(intField(node).Format, *intField(node).Rules.Minimum) ==> result1 != nil
+//@ func checkIntegerBound
+//@   ensures exact: (result == nil) == (bound == nil || fitsFormat(format, *bound))
